@@ -371,3 +371,88 @@ def calls_phys(ctx):
     else:
         ctx.inconclusive.append("vacuity: correlate never completed")
     ctx.sample({"paths": E.paths})
+
+
+# ---------------------------------------------------------------------------------------
+# O6: references to the standard intrinsic procedures are never recorded.  The reference list is the Fortran 2018 standard's
+# (ISO/IEC 1539-1:2018, table 16.1), written down here independently of FORD's own table in ford/intrinsics.py
+# ---------------------------------------------------------------------------------------
+F2018_FUNCTIONS = """abs achar acos acosh adjustl adjustr aimag aint all allocated anint any asin asinh associated atan atan2 atanh
+bessel_j0 bessel_j1 bessel_jn bessel_y0 bessel_y1 bessel_yn bge bgt ble blt bit_size btest ceiling char cmplx command_argument_count
+conjg cos cosh coshape count cshift dble digits dim dot_product dprod dshiftl dshiftr eoshift epsilon erf erfc erfc_scaled
+exp exponent extends_type_of failed_images findloc floor fraction gamma get_team huge hypot iachar iall iand iany ibclr ibits ibset ichar ieor
+image_index image_status index int ior iparity ishft ishftc is_contiguous is_iostat_end is_iostat_eor kind lbound lcobound leadz len len_trim
+lge lgt lle llt log log_gamma log10 logical maskl maskr matmul max maxexponent maxloc maxval merge merge_bits min minexponent minloc minval
+mod modulo nearest new_line nint norm2 not null num_images out_of_range pack parity popcnt poppar precision present product radix
+range rank real reduce repeat reshape rrspacing same_type_as scale scan selected_char_kind selected_int_kind selected_real_kind
+set_exponent shape shifta shiftl shiftr sign sin sinh size spacing spread sqrt stopped_images storage_size sum tan tanh team_number this_image
+tiny trailz transfer transpose trim ubound ucobound unpack verify""".split()
+F2018_SUBROUTINES = """atomic_add atomic_and atomic_cas atomic_define atomic_fetch_add atomic_fetch_and atomic_fetch_or atomic_fetch_xor
+atomic_or atomic_ref atomic_xor co_broadcast co_max co_min co_reduce co_sum cpu_time date_and_time event_query execute_command_line
+get_command get_command_argument get_environment_variable move_alloc mvbits random_init random_number random_seed system_clock""".split()
+INTRINSIC_REFS = [(n, "x = {}(y)") for n in F2018_FUNCTIONS] + [(n, "call {}(y)") for n in F2018_SUBROUTINES]
+SPELL = [("lower", str.lower), ("upper", str.upper), ("capitalised", str.capitalize)]
+
+
+def _intrinsic_stmt(ref, spell):
+    return ref[1].format(dict(SPELL)[spell](ref[0]))
+
+
+def replay_intrinsic(w):
+    bad = []
+    for nm in w["names"]:
+        ref = [r for r in INTRINSIC_REFS if r[0] == nm][0]
+        stmt = _intrinsic_stmt(ref, w["spelling"])
+        p = parserh.project_concrete({"a.f90": list(MODULE), "b.f90": _caller([stmt, "call foo(x)"])}, **PSET)
+        got = sorted(_callnames(p))
+        if got != ["foo"]:
+            bad.append((stmt, got))
+    return bool(bad), {"statements_and_recorded_calls": bad, "invoked_user_procedures": ["foo"]}
+
+
+@obligation("C08", "O6.standard-intrinsics-never-recorded", engine="SX(CV)", timeout=1800)
+def intrinsics_never_recorded(ctx):
+    """a reference to any Fortran 2018 standard intrinsic function (`x = NAME(y)`) or subroutine (`call NAME(y)`), in three letter cases,
+    next to a call of a user procedure: exactly the user procedure is recorded"""
+    import ford.sourceform as sf
+    import ford.intrinsics as fi
+
+    ctx.encode_fn(sf.FortranContainer._add_procedure_calls)
+    ctx.encode_text("INTRINSICS", repr(sorted(fi.INTRINSICS)))
+    ctx.bounds.update({"intrinsic functions": len(F2018_FUNCTIONS), "intrinsic subroutines": len(F2018_SUBROUTINES), "letter cases": len(SPELL)})
+    ctx.stubs.append("FortranReader replaced by the symbolic statement list")
+    kf = ctx.known("C08-f2018-intrinsics-recorded", replay_intrinsic)
+    # only the listed names that still fail are left out of the query: a listed name that is repaired is checked again
+    skip = set()
+    if kf:
+        from fv import patch as _patch
+        with _patch.suspended():
+            skip = {nm for nm in kf["witness"]["names"] if replay_intrinsic({"names": [nm], "spelling": "lower"})[0]}
+
+    def h(E):
+        ref = CV.choice(E, "ref", INTRINSIC_REFS)
+        sp = CV.choice(E, "spelling", [s_[0] for s_ in SPELL])
+        h.state = (ref, sp)
+        if skip:
+            E.assume(choice.apply(lambda r: r[0] not in skip, ref))
+        stmt = choice.apply(_intrinsic_stmt, ref, sp)
+        p = parserh.project({"a.f90": list(MODULE), "b.f90": _caller([stmt, "call foo(x)"])}, **PSET)
+        names = _callnames(p)
+        E.reachable("correlated")
+        got = choice.apply(lambda *n: sorted(n), *names) if names else []
+        E.require(choice.apply(lambda g: list(g) == ["foo"], got), "a reference to a standard intrinsic procedure is recorded as a call")
+
+    E = sym.Engine(ctx, max_paths=100000, incremental=True)
+    found = E.explore(h)
+    seen = set()
+    for (label, m, pc), A in list(zip(found, E.autosnaps)):
+        ref, sp = (choice.value_in_model(m, x) for x in A["state"])
+        if (label, ref[0]) in seen:
+            continue
+        seen.add((label, ref[0]))
+        ctx.report(label, {"names": [ref[0]], "spelling": sp}, replay_intrinsic)
+    if E.reached.get("correlated"):
+        ctx.twins += 1
+    else:
+        ctx.inconclusive.append("vacuity: correlate never completed")
+    ctx.sample({"paths": E.paths, "excluded by the known finding": sorted(skip)})
